@@ -8,6 +8,7 @@ import CandidModel.Driver.Text
 import CandidModel.Driver.Check
 import CandidModel.Driver.Bindgen
 import CandidModel.Driver.Rand
+import CandidModel.Driver.RustId
 /-
   Line-protocol driver.  One request per line: `<op>\t<arg>\t<arg>…`; one answer per line:
   `<model answer>\t<spec answer>` (or `bad-op` for what no handler accepts — never a default).
@@ -15,7 +16,7 @@ import CandidModel.Driver.Rand
 open Candid Candid.Driver
 
 def handlers : List (String → List String → Option String) :=
-  [handleLeb, handlePrincipal, handleSubtype, handleWire, handleLabels, handleDe, handleText, handleCheck, handleBindgen, handleRand]
+  [handleLeb, handlePrincipal, handleSubtype, handleWire, handleLabels, handleDe, handleText, handleCheck, handleBindgen, handleRand, handleRust]
 
 def answer (line : String) : String :=
   match line.splitOn "\t" with
